@@ -22,8 +22,10 @@ pub fn worker_main(ctx: Ctx) {
     grass_compiler::verif::set_point_callback(Some(crate::sched::hook_point));
     let stdin = std::io::stdin();
     let send = |out: &Arc<Mutex<std::fs::File>>, v: Value| {
+        let mut line = v.to_string();
+        line.push('\n');
         let mut g = out.lock().unwrap();
-        let _ = writeln!(g, "{}", v);
+        let _ = g.write_all(line.as_bytes());
         let _ = g.flush();
     };
     send(&out, json!({"ready": true, "corpus": ctx.corpus.len()}));
@@ -64,8 +66,10 @@ pub fn worker_main(ctx: Ctx) {
                             return false;
                         }
                         if careful {
+                            let mut line = json!({"at": idx, "case": mk()}).to_string();
+                            line.push('\n');
                             let mut g = out2.lock().unwrap();
-                            let _ = writeln!(g, "{}", json!({"at": idx, "case": mk()}));
+                            let _ = g.write_all(line.as_bytes());
                             let _ = g.flush();
                         }
                         true
